@@ -174,7 +174,11 @@ func (c *Ctx) finish(evDir string, writeEvidence bool, seed int, start time.Time
 	}
 	for _, o := range c.Obls {
 		distinct[o.Rule+"|"+o.Key] = true
-		fmt.Printf("%s %s [%s] %s %s\n", o.Status, o.Rule, o.Key, o.Pos, o.Msg)
+		shown := o.Status
+		if shown == stKnown {
+			shown = "KNOWN"
+		}
+		fmt.Printf("%s %s [%s] %s %s\n", shown, o.Rule, o.Key, o.Pos, o.Msg)
 		switch o.Status {
 		case stOK:
 			okN++
